@@ -26,7 +26,7 @@ os.environ.setdefault('PROXY_PY_VERIF', '1')
 def _args_from_message(msg, fn):
     """Extract the concrete argument list CrossHair prints ("when calling f(1, 2)")."""
     import inspect
-    m = re.search(r'when calling \w+\((.*?)\)(?: \(which |$)', msg, re.S)
+    m = re.search(r'when calling \w+\((.*?)\)(?: \(which | with crosshair\.|$)', msg, re.S)
     if not m:
         return None
     params = list(inspect.signature(fn).parameters)
